@@ -185,7 +185,7 @@ def random_schedule(rng, emphasis):
             hn += 1
             ty = rng.choice(["CON", "CON", "NON"])
             delay = rng.choice([0, 0, 30, EAD - 1, EAD + 1, 300, 2000])
-            outcome = rng.choice(["ok", "ok", "ok", "raise:NotFound", "raise:py:KeyError", "noresponse"])
+            outcome = rng.choice(["ok", "ok", "ok", "ok", "raise:NotFound", "raise:py:KeyError", "noresponse", "unencodable:payload"])
             nr = rng.choice([None, None, None, 26, 2, 8, 16, 0])
             handlers[str(hn)] = {"delay": delay, "outcome": outcome, "len": rng.choice([0, 5, 40])}
             tok = newtok()
